@@ -160,7 +160,26 @@ func writeOpKind(kind int, r *prng.R, key, exp string) []kvx.Op {
 		if key == "b" {
 			other = "ab"
 		}
-		return []kvx.Op{{K: "N", Recs: []kvx.RecIn{{Key: other, Val: 2}, {Key: key, Val: v, Exp: exp}}}}
+		// the batch may name `key` more than once, with and without an expiration, in either order, next to records
+		// of other keys with expirations of their own: whatever the batch is split into, its last record of `key` counts
+		otherExp := prng.Pick(r, []string{"", "", "1h", "-1h"})
+		earlier := prng.Pick(r, []string{"", "1h", "-1h"})
+		if earlier == exp {
+			earlier = ""
+		}
+		last := kvx.RecIn{Key: key, Val: v, Exp: exp}
+		switch r.Intn(6) {
+		case 0:
+			return []kvx.Op{{K: "N", Recs: []kvx.RecIn{{Key: key, Val: 3 - v%2, Exp: earlier}, last}}}
+		case 1:
+			return []kvx.Op{{K: "N", Recs: []kvx.RecIn{{Key: key, Val: 1, Exp: earlier}, {Key: other, Val: 2, Exp: otherExp}, last}}}
+		case 2:
+			return []kvx.Op{{K: "N", Recs: []kvx.RecIn{last, {Key: other, Val: 2, Exp: otherExp}}}}
+		case 3:
+			return []kvx.Op{{K: "N", Recs: []kvx.RecIn{{Key: other, Val: 1, Exp: otherExp}, {Key: key, Val: 2, Exp: earlier}, {Key: other, Val: 2}, last}}}
+		default:
+			return []kvx.Op{{K: "N", Recs: []kvx.RecIn{{Key: other, Val: 2}, last}}}
+		}
 	default: // create without expiration, then CAS the expiration in
 		return []kvx.Op{{K: "C", Key: key, Val: 2}, {K: "S", Key: key, Val: v, Exp: exp, Ver: "cur"}}
 	}
@@ -206,7 +225,14 @@ func tailOp(r *prng.R, exps []string, waitMs int64) kvx.Op {
 	case x < 47:
 		return kvx.Op{K: "P", Key: key, Val: r.Range(1, 3), Exp: exp}
 	case x < 55:
-		return kvx.Op{K: "N", Recs: []kvx.RecIn{{Key: key, Val: 2, Exp: exp}, {Key: "b", Val: 1}}}
+		recs := []kvx.RecIn{{Key: key, Val: 2, Exp: exp}, {Key: "b", Val: 1}}
+		if r.Chance(1, 3) { // the same key again, with another expiration
+			recs = append(recs, kvx.RecIn{Key: key, Val: 3, Exp: prng.Pick(r, append([]string{""}, exps...))})
+		}
+		if r.Chance(1, 4) {
+			recs = append([]kvx.RecIn{{Key: key, Val: 1}}, recs...)
+		}
+		return kvx.Op{K: "N", Recs: recs}
 	case x < 68:
 		return kvx.Op{K: "S", Key: key, Val: r.Range(1, 3), Exp: exp, Ver: prng.Pick(r, []string{"cur", "cur", "old", "unk"})}
 	case x < 78:
